@@ -1294,6 +1294,8 @@ class Evaluator:
                             return r[1][a[1]]
                 if sub["self"] is not None and n["recv"].get("k") == "Path" and (n["recv"].get("res") or {}).get("local"):
                     env[n["recv"]["res"]["local"]] = sub["self"]
+                    if n["recv"]["res"]["local"] == "self":
+                        st["self_after"] = sub["self"]  # `self.grow_edges(..)` inside a `&mut self` method: the caller's receiver changes too
                 return r
         if d.startswith(self.inline_prefixes) and d not in self.opaque and self.watch and name not in self.watch and name not in TRANSPARENT and name not in self.transparent and (st["depth"] >= self.max_depth or (d not in self.by_path and re.sub(r"::<[^>]*>$", "", d) not in self.by_path and n.get("def", "") not in self.by_path)) and not _plain_accessor(name) and self._may_reach_watched(d, n.get("def", "")):
             self.incomplete.append(f"call of {d} at line {n.get('line')} not followed (depth / no source-level body)")
